@@ -45,6 +45,9 @@ Step(s, e, i) ==
     [] e.ev = "payload" -> RepIf(e.before # e.after, s0, V("muxer-modified-caller-buffer", s0, [api |-> e.api]))
     [] e.ev = "solo" -> [s0 EXCEPT !.solo = SetFn(s.solo, e.inst, e.seq)]
     [] e.ev = "conc" -> RepIf(e.inst \notin DOMAIN s.solo \/ s.solo[e.inst] # e.seq, s0, V("concurrent-result-differs-from-solo", s0, [inst |-> e.inst, n |-> Len(e.seq)]))
+    \* the same tiny input through a fresh Demuxer before and after other instances were used: same outcome
+    [] e.ev = "first" -> [s0 EXCEPT !.solo = SetFn(s.solo, e.inst, e.seq)]
+    [] e.ev = "again" -> RepIf(e.inst \notin DOMAIN s.solo \/ s.solo[e.inst] # e.seq, s0, V("result-depends-on-other-instances", s0, [inst |-> e.inst, phase |-> e.phase, n |-> Len(e.seq)]))
     [] e.ev = "concdone" -> RepIf(s.held # {}, s0, V("pool-item-held-after-return", s0, [rkind |-> "concurrent", n |-> Cardinality(s.held)]))
     [] e.ev = "race" -> RepIf(e.n > 0, s0, V("data-race-reported", s0, [n |-> e.n]))
     [] OTHER -> s
